@@ -34,6 +34,7 @@ type Prog struct {
 	AllFuncs map[*ssa.Function]bool
 	cg       *callgraph.Graph
 	funcOf   map[token.Pos]*ssa.Function // FuncDecl/FuncLit pos -> ssa function
+	addrTaken map[*ssa.Function]bool
 }
 
 func repoDir() string {
